@@ -163,3 +163,69 @@ Example C10_nonvacuous_fair_chunks :
   /\ dcf_cuts cwf 7 17 3 = [0; 2; 6; 7]
   /\ node_ranges 7 3 = [(0, 3); (3, 6); (6, 7)].
 Proof. cbv zeta. repeat split; vm_compute; reflexivity. Qed.
+
+(* ---- links ---- *)
+(** LINK C10 o C03/C01: the labeling contract [lab_ok], which the theorems above assume of
+    the representation being split, holds of the BvGraph / BvGraphSeq access models (C03)
+    run on the encoder's bit stream (C01) -- for every strictly increasing graph, valid
+    reference selection, code assignment, endianness and padding. *)
+From WG Require Import Codes.Codes BV.Model BV.RefSel BV.Bits BV.BitsFacts BV.GreedyFacts
+  BV.Access BV.AccessStatements Links.SplitLinkStatements Links.SplitLinkFacts.
+
+(** [BvGraph] ([iter_from] = ring decoder through the offsets, [split_iter_at] =
+    [split::ra::Iter]) satisfies the contract and its scan is [scan g] *)
+Theorem C10_link_bvgraph_lab_ok : S_link_bvgraph_lab_ok.
+Proof. exact link_bvgraph_lab_ok. Qed.
+Print Assumptions C10_link_bvgraph_lab_ok.
+
+(** the same with the window modelled as a list *)
+Theorem C10_link_bvgraph_list_lab_ok : S_link_bvgraph_list_lab_ok.
+Proof. exact link_bvgraph_list_lab_ok. Qed.
+Print Assumptions C10_link_bvgraph_list_lab_ok.
+
+(** [BvGraphSeq] ([iter_from] = decode and discard, [split_iter_at] = [split::seq::Iter] over
+    the slot-recycling [iter()]) *)
+Theorem C10_link_bvgraphseq_lab_ok : S_link_bvgraphseq_lab_ok.
+Proof. exact link_bvgraphseq_lab_ok. Qed.
+Print Assumptions C10_link_bvgraphseq_lab_ok.
+
+(** for every legal cut sequence the parts of the split of the COMPRESSED graph are the
+    slices [c_i, c_{i+1}) of [scan g] *)
+Theorem C10_link_bvgraph_parts : S_link_bvgraph_parts.
+Proof. exact link_bvgraph_parts. Qed.
+Print Assumptions C10_link_bvgraph_parts.
+
+(** on the domain of the contract the compressed graphs ARE the leaves [GRa g] / [GSeq g] *)
+Theorem C10_link_bvgraph_is_leaf : S_link_bvgraph_is_leaf.
+Proof. exact link_bvgraph_is_leaf. Qed.
+Print Assumptions C10_link_bvgraph_is_leaf.
+
+(** and the wrapper theorems apply to them verbatim *)
+Theorem C10_link_bvgraph_wrapped : S_link_bvgraph_wrapped.
+Proof. exact link_bvgraph_wrapped. Qed.
+Print Assumptions C10_link_bvgraph_wrapped.
+
+(** non-vacuity: the graph of [C03_nonvacuous] (copied blocks, intervals, residuals, an
+    empty node, reference chains), greedy selection, padding; cut with a first cut > 0, a
+    repeated cutpoint and a last cut < n; both representations evaluated on the bits *)
+Example C10_link_nonvacuous :
+  let p := mkParams 3 (Some 2) 2 in
+  let cs := mkCodes Gamma Unary Gamma Gamma (Zeta 3) in
+  let g := [[1;2;3;5;9]; [1;2;3;5;8]; []; [1;2;5;8;9;10;11]; [0;1;2;3]; [2;5;8]; [1;2;5;8;9;10;12]] in
+  let sel := greedy_sel p cs 0 g in
+  let s := enc_stream true cs p g sel [true; false; true] in
+  let offs := enc_offs true cs p g sel in
+  let parts := [[(1, [1;2;3;5;8]); (2, [])]; [];
+                [(3, [1;2;5;8;9;10;11]); (4, [0;1;2;3]); (5, [2;5;8])]] in
+  enc_ok cs p g sel /\ cuts_ok [1;3;3;6] (nlen g) = true
+  /\ lb_split (bvgraph_lab true cs p (nlen g) offs s) [1;3;3;6] = Parts parts
+  /\ lb_split (bvgraphseq_lab true cs p (length g) s) [1;3;3;6] = Parts parts
+  /\ lb_from (bvgraph_lab true cs p (nlen g) offs s) 5 = [(5, [2;5;8]); (6, [1;2;5;8;9;10;12])]
+  /\ lb_split (bvgraph_lab true cs p (nlen g) offs s) [0;8] = Panic BeyondEnd.
+Proof.
+  cbv zeta. split.
+  - split; [vm_compute; reflexivity|]. split; [|vm_compute; reflexivity].
+    repeat constructor.
+  - repeat split; vm_compute; reflexivity.
+Qed.
+(* ---- links ---- *)
